@@ -16,7 +16,8 @@
       validate_error_located : In e errs -> validate_model repaired pi S F D = Done errs ->
                            e_locs e <> [] /\ every location is the position of a node of D
 
-    proved here:  - the verdict does not depend on pi                         (C04_accept_deterministic)
+    proved here:  - never Panic / OutOfFuel, any schema and document          (C04_validate_no_panic)
+                  - the verdict does not depend on pi                         (C04_accept_deterministic, C04_verdict_deterministic)
                   - accepted <-> every rule group silent                      (C04_accepted_iff_rules_silent)
                   - rule group <-> specification section, for 5.7 (directives), 5.5.1 (fragment
                     declarations), 5.4 (arguments), 5.6 (values), 5.2.1.1 / 5.2.2.1 / root types
@@ -26,15 +27,17 @@
                   - the cycle search of 5.5.2.2 and the work list of 5.8 against order-free
                     characterisations                                         (C04_cycle_search_iff, C04_variables_rule_iff)
                   - the secondary-error filter                                (the C04_filter_... theorems), NewTypeInfo total
-    NOT proved (stage 2): the equivalences for 5.2.3.1 (subscription root), 5.3 (fields, in particular
-    FieldsInSetCanMerge / SameResponseShape), 5.5.2 (spreads against the Spec's formulation), 5.8
+                  - accepted -> 5.3.1, 5.3.3, every field defined, hence 5.4 without side condition
+                                                                              (C04_accepted_fields_hold, C04_accepted_arguments_hold)
+    NOT proved: the converse for 5.3.1 / 5.3.3 (valid -> the field visitor is silent), the equivalences
+    for 5.2.3.1 (subscription root), 5.3.2 (FieldsInSetCanMerge / SameResponseShape), 5.5.2 (spreads against the Spec's formulation), 5.8
     (variables against the Spec's formulation), hence validate_verdict itself; that no secondary error
     is ever emitted without a primary one (secondary_never_alone); validate_error_located.  These are
     covered on every run by the correspondence check and the Spec oracle only. *)
 From Coq Require Import List NArith.
 From ApiFu Require Import Base.Sexp Vld.Ast Vld.Inspect Vld.TypeInfoModel Vld.TypeInfoPure Vld.ValidatorModel Vld.ValidSpec
      Vld.Hyps Vld.ProofsCommon Vld.ProofsDirectives Vld.ProofsArguments Vld.ProofsFragDecl Vld.ProofsValues
-     Vld.ProofsCycles Vld.ProofsVarsOrder Vld.ProofsOrder Vld.ProofsOperations Vld.ValidatorProofs Vld.Witness.
+     Vld.ProofsCycles Vld.ProofsVarsOrder Vld.ProofsOrder Vld.ProofsOperations Vld.ProofsTotal Vld.Enumerate Vld.ProofsFields Vld.ValidatorProofs Vld.Witness.
 Import ListNotations.
 
 (** ** determinism: acceptance is a function of schema, features and document alone *)
@@ -42,6 +45,22 @@ Theorem C04_accept_deterministic : forall pi1 pi2 S F D,
   order_ok pi1 -> order_ok pi2 ->
   (validate_model repaired pi1 S F D = Done [] <-> validate_model repaired pi2 S F D = Done []).
 Proof. exact validate_accept_order. Qed.
+
+(** the repaired validator never panics and never runs out of fuel: for EVERY schema, feature set
+    and document (no well-formedness assumed: undefined fragments, spread cycles, unknown types,
+    selection sets on leaves, ... included) and every map order the outcome is a list of errors.
+    The only premise is that a Go range visits each map entry once.  (Exported to C03.) *)
+Theorem C04_validate_no_panic : forall pi S F D,
+  order_ok pi -> exists errs, validate_model repaired pi S F D = Done errs.
+Proof. exact validate_no_panic. Qed.
+
+(** hence the verdict proper: accepted under both orders, or rejected (a non-empty list of errors)
+    under both *)
+Theorem C04_verdict_deterministic : forall pi1 pi2 S F D,
+  order_ok pi1 -> order_ok pi2 ->
+  (validate_model repaired pi1 S F D = Done [] /\ validate_model repaired pi2 S F D = Done []) \/
+  (exists e1 l1 e2 l2, validate_model repaired pi1 S F D = Done (e1 :: l1) /\ validate_model repaired pi2 S F D = Done (e2 :: l2)).
+Proof. exact validate_verdict_order. Qed.
 
 (** ** the pipeline *)
 (** NewTypeInfo never indexes an empty scope stack *)
@@ -153,6 +172,26 @@ Theorem C04_accepted_operations_hold : forall pi S F D,
   valid_5_2_1_1 D = true /\ valid_5_2_2_1 D = true /\ valid_root S D = true.
 Proof. exact accepted_operations_hold. Qed.
 
+(** 5.3.1 and 5.3.3 (fields defined; leaf fields without, composite fields with a selection set):
+    they hold of every accepted document over a well-formed schema, every selection set then has a
+    composite parent type and every field selection a definition — which discharges the side
+    condition of the 5.4 clause above *)
+Theorem C04_accepted_fields_hold : forall pi S F D,
+  order_ok pi -> schema_ok S = true -> validate_model repaired pi S F D = Done [] ->
+  fields_defined S F D = true /\ valid_5_3_1 S F D = true /\ valid_5_3_3 S F D = true.
+Proof. exact accepted_fields_hold. Qed.
+Theorem C04_accepted_arguments_hold : forall pi S F D,
+  order_ok pi -> schema_ok S = true -> validate_model repaired pi S F D = Done [] -> valid_5_4 S F D = true.
+Proof. exact accepted_arguments_hold. Qed.
+
+(** the errors of the first visitor of validateFields on an annotated document, exactly: one batch
+    per field selection, computed from the parent type TypeInfo recorded ([fe_ev1]) *)
+Theorem C04_fields_pass_errors : forall S F qo D,
+  r_errs (inspect (fields_enter S F) pop (tree_doc (pti_doc qo S F D)) rst0) =
+  flat_map (fun d => flat_map (fun o => fe_ev1 S F (fst o) (pti_sel qo S F (fst o) (snd o)))
+                              (ssels_ss S F (model_def_scope S F d) (def_sub d))) D.
+Proof. exact fields_pass_errors. Qed.
+
 (** a violation of one of these sections -> rejected *)
 Theorem C04_violation_rejected_partial : forall pi S F D,
   order_ok pi ->
@@ -177,6 +216,8 @@ Theorem C04_refuted_before_fix_nil_argument :
 Proof. exact panic_before_fix_4. Qed.
 
 Print Assumptions C04_accept_deterministic.
+Print Assumptions C04_validate_no_panic.
+Print Assumptions C04_verdict_deterministic.
 Print Assumptions C04_type_info_total.
 Print Assumptions C04_accepted_iff_rules_silent.
 Print Assumptions C04_all_rules_silent.
@@ -193,6 +234,9 @@ Print Assumptions C04_cycle_search_iff.
 Print Assumptions C04_cycle_search_total.
 Print Assumptions C04_variables_rule_iff.
 Print Assumptions C04_validate_verdict_partial.
+Print Assumptions C04_accepted_fields_hold.
+Print Assumptions C04_accepted_arguments_hold.
+Print Assumptions C04_fields_pass_errors.
 Print Assumptions C04_violation_rejected_partial.
 Print Assumptions C04_refuted_before_fix_descend.
 Print Assumptions C04_refuted_before_fix_revisit.
